@@ -2,6 +2,7 @@ SPECIFICATION Spec
 CONSTANTS
   Configs <- ConfigsSmall
   Budget = 3
+  Window <- WindowAll
   Bug = "none"
 INVARIANT TableAtDone
 INVARIANT TableStaysOK
